@@ -10,8 +10,15 @@ for d in sorted(glob.glob('/verif/seeded/*/')):
     m = json.load(open(mp))
     files = sorted(set(re.findall(r'^diff --git a/(\S+)', open(d + 'patch.diff').read(), re.M))) if os.path.exists(d + 'patch.diff') else []
     first = m.get('first_run', {})
-    fr = 'missed' if (first and first.get('exit') == 0) else ('caught' if m.get('caught') else 'missed')
+    if isinstance(first, str):
+        fr = 'missed' if 'miss' in first.lower() else 'caught'
+    elif isinstance(first, dict) and first:
+        fr = 'missed' if (first.get('exit') == 0 or first.get('caught') is False) else 'caught'
+    else:
+        fr = 'caught' if m.get('caught') else 'missed'
     now = 'caught' if m.get('caught') else 'MISSED'
+    if m.get('status') == 'neutralised':
+        now = 'neutralised by ' + str(m.get('neutralised_by', 'a later fix')) + ' (the change is no regression any more: demo exits 0)'
     rep = (m.get('check', {}).get('report') or [''])
     how = ''
     for l in rep:
@@ -23,4 +30,4 @@ for d in sorted(glob.glob('/verif/seeded/*/')):
 print('| seed | file(s) | needs | first run | now |\n|---|---|---|---|---|')
 for r in rows:
     print('| ' + ' | '.join(x.replace('|', '/') for x in r) + ' |')
-c = sum(1 for r in rows if r[4].startswith('caught')); print(f'\n{c} of {len(rows)} caught')
+c = sum(1 for r in rows if r[4].startswith('caught')); n = sum(1 for r in rows if r[4].startswith('neutral')); print(f'\n{c} of {len(rows)} caught, {n} neutralised, {len(rows) - c - n} missed')
